@@ -4,6 +4,7 @@ configparser constants) — re-checked whenever the translator's output changes.
 -/
 import OfxModel.Generated.OfxgetTables
 import OfxProofs.Lemmas.Ofxget
+import OfxProofs.Lemmas.OfxgetStmt
 
 namespace Ofx.Gen
 open Ofx Ofx.Ofxget Ofx.Generated
@@ -25,11 +26,14 @@ theorem acct_types_are_lists :
       ofxgetTables.configurable.lookup k == some CfgTy.list && ofxgetTables.defaults.lookup k == some (CfgVal.list [])) = true := by
   decide +kernel
 
-/-- configparser: the interpolation depth limit and the spellings of booleans the model was written for -/
+/-- configparser: the spellings of booleans the model was written for -/
 theorem configparser_constants :
-    ofxgetTables.maxInterpDepth = 10 ∧
     ofxgetTables.booleanStates = [("1".toList, true), ("yes".toList, true), ("true".toList, true), ("on".toList, true),
       ("0".toList, false), ("no".toList, false), ("false".toList, false), ("off".toList, false)] := by
   decide +kernel
+
+/-- the account types a response can carry are the ones the C19 theorems assume (`ValidInfos`), and ACTIVE is a status -/
+theorem acct_enums :
+    ofxgetTables.acctTypes = validAcctTypes ∧ "ACTIVE".toList ∈ ofxgetTables.svcStatuses := by decide +kernel
 
 end Ofx.Gen
